@@ -243,9 +243,12 @@ func allChecks() []Check {
 			Runs: []HarnessRun{
 				{Harness: "VP_C14_tables", Quick: map[string]int{}, MustReach: []string{"C14/tables/done"}},
 				{Harness: "VP_C14_classes", Quick: map[string]int{}, MustReach: []string{"C14/classes/done"}},
+				{Harness: "VP_C14_tokens", Quick: map[string]int{"L": 2, "OPS": 0}, Thorough: map[string]int{"L": 3, "OPS": 0}, MustReach: []string{"C14/tokens/complete", "C14/tokens/cut"}, PanicLabel: "C14/tokens/no-panic"},
+				{Harness: "VP_C14_tokens", Quick: map[string]int{"L": 4, "OPS": 1}, Thorough: map[string]int{"L": 5, "OPS": 1}, MustReach: []string{"C14/tokens/complete"}, PanicLabel: "C14/tokens/no-panic"},
 				{Harness: "VP_C14_scanstep", Quick: map[string]int{"L": 3}, Thorough: map[string]int{"L": 4}, MustReach: []string{"C14/scanstep/done"}, PanicLabel: "C14/scanstep/no-panic"},
 			},
-			Bounds:      map[string]string{"classes": "every code point 0..0x10FFFF (one symbolic 32-bit rune)", "scanstep": "one Scan() from every start position of every text of L symbolic bytes (inductive step: tiling for all texts of that size follows by induction over calls); quick L=3, thorough L=4"},
+			Bounds: map[string]string{"tokens": "the real scanner's token sequence (kind, start, end, line-break flag) equals an independent longest-match reference tokenizer's (operator table longest-first, keywords as whole words, identifier classes, ES whitespace/line-break separators) on every text of L symbolic bytes (quick L=2, thorough L=3) and on every text of L bytes over the operator-dense alphabet {= ! . & | ? < > + a 1 space newline} (quick L=4, thorough L=5); comparison stops where the statement leaves token extents open (malformed numbers, hex, unterminated strings, escapes)",
+				"classes": "every code point 0..0x10FFFF (one symbolic 32-bit rune)", "scanstep": "one Scan() from every start position of every text of L symbolic bytes (inductive step: tiling for all texts of that size follows by induction over calls); quick L=3, thorough L=4"},
 			Outside:     []string{"contents of the ES5 identifier tables (no independent oracle)", "texts longer than the bound"},
 			Assumptions: commonAssumptions,
 		},
